@@ -38,6 +38,14 @@ Field-list reuse (C13):
         one single field edit (insert / delete / retype / swap) of a struct or message whose field list other messages copy
         with ``fields: NAME``; result.edited = {"kind": "reused-fields/<edit>", "old": NAME, "new": NAME, "what", "users": [messages
         that copy NAME's fields]}
+Editions of a definition (C13):
+    layout_preserving_edit(program, ch, max_messages=2) -> Program | None
+        1-2 messages keep their name, id and MEMORY LAYOUT and get another definition TEXT (hence another version hash): a field type
+        replaced by a native name of the same width, kind and ctypes class (int -> int32, unsigned int -> uint32, long -> int32, short ->
+        int16, byte -> uint8 ...: SAME_CTYPE), an alias replaced by the native it stands for, an array length written differently
+        (char[MAX_LEN] -> char[32], int32[8] -> int32[4 * 2]); result.edited = {"kind": "layout-preserving", "names": [messages], "old",
+        "new", "what"}; messages whose fields are all natives / aliases of natives are preferred (their two editions are
+        indistinguishable by name, id, size and ctypes fields)
 """
 from __future__ import annotations
 
@@ -608,3 +616,90 @@ def edit_reused_fields(program: G.Program, ch: G.Chooser) -> Optional[G.Program]
         q.edited = {"kind": "reused-fields/" + how, "old": tname, "new": tname, "what": what, "users": reuse_users(q, tname)}
         return q
     return None
+
+
+# ------------------------------------------------------------------------------------------------
+# C13: editions of a message that differ in the definition text only (same name, id, size and ctypes layout)
+
+# native type names the Python back end maps to one and the same ctypes class
+SAME_CTYPE = [["int32", "int", "signed int", "long", "signed long"], ["uint32", "unsigned int", "unsigned", "unsigned long"], ["int16", "short", "signed short"],
+              ["uint16", "unsigned short"], ["int64", "long long", "signed long long"], ["uint64", "unsigned long long"], ["uint8", "unsigned char", "byte"]]
+_CTYPE_GROUP = {n: g for g in SAME_CTYPE for n in g}
+
+
+def _length_respelled(f: G.FieldSpec, ch: G.Chooser) -> Optional[str]:
+    """Another text for the array length of ``f`` with the same value (None for a scalar)."""
+    if f.length is None or f.length_text is None:
+        return None
+    n = f.length
+    cands = []
+    if re.search(r"[A-Za-z_]", f.length_text) and not re.fullmatch(r"\s*0[xX][0-9a-fA-F]+\s*", f.length_text):
+        cands.append(str(n))  # a constant expression replaced by its value: char[MAX_LEN] -> char[32]
+    else:
+        cands += [f"{n // k} * {k}" for k in (2, 4, 8) if n % k == 0 and n // k >= 1] + [f"{n - 1} + 1" if n > 1 else "2 - 1", hex(n)]
+    cands = [c for c in cands if c.replace(" ", "") != f.length_text.replace(" ", "")]
+    return ch.choice(cands) if cands else None
+
+
+def layout_preserving_edit(program: G.Program, ch: G.Chooser, max_messages: int = 2) -> Optional[G.Program]:
+    def options(q, f):
+        out = []
+        try:
+            r = q.resolve_type(f.base)
+        except Exception:  # noqa
+            return out
+        if r.kind == "native":
+            grp = [n for n in _CTYPE_GROUP.get(r.name, []) if n != f.base]
+            if f.base in G.NATIVES and grp:
+                out.append("synonym")
+            if f.base not in G.NATIVES:
+                out.append("alias-to-native")
+        if f.length is not None and f.length_text is not None:
+            out.append("length-text")
+        return out
+
+    def plain(q, d):
+        try:
+            return all(q.resolve_type(f.base).kind == "native" for f in d.fields)
+        except Exception:  # noqa
+            return False
+
+    msgs = [d for d in program.defs if d.kind == "message" and d.fields and not d.style.get("quote_types") and any(options(program, f) for f in d.fields)]
+    if not msgs:
+        return None
+    pref = [d for d in msgs if plain(program, d)]
+    q = program.clone()
+    q.relocated = None
+    chosen = []
+    for _ in range(ch.integer(1, max_messages)):
+        pool = [d for d in (pref if pref and ch.chance(0.85) else msgs) if d.name not in chosen]
+        if pool:
+            chosen.append(ch.choice(pool).name)
+    whats = []
+    for name in chosen:
+        d = _find(q, name, ("message",))
+        cands = [f for f in d.fields if options(q, f)]
+        picked = [f for f in cands if ch.chance(0.6)] or [ch.choice(cands)]
+        for f in picked:
+            how = ch.choice(options(q, f))
+            old = f.type_text
+            if how == "synonym":
+                G._retext(f, base=ch.choice([n for n in _CTYPE_GROUP[q.resolve_type(f.base).name] if n != f.base]))
+            elif how == "alias-to-native":
+                nat = q.resolve_type(f.base).name
+                G._retext(f, base=ch.choice(_CTYPE_GROUP.get(nat, [nat])) if ch.chance(0.5) else nat)
+            else:
+                lt = _length_respelled(f, ch)
+                if lt is None:
+                    continue
+                G._retext(f, length=f.length, ltext=lt)
+            if f.type_text.replace(" ", "") != old.replace(" ", ""):
+                whats.append(f"{name}.{f.name}: {old} -> {f.type_text}")
+    if not whats:
+        return None
+    q.rerender()
+    if q.problems():
+        return None
+    touched = sorted({w.split(".")[0] for w in whats})
+    q.edited = {"kind": "layout-preserving", "names": touched, "old": touched[0], "new": touched[0], "what": "; ".join(whats)}
+    return q
